@@ -32,5 +32,14 @@ CHECKS.update({
            "Every graph on n_l+n_u <= 6 nodes over the weight alphabet x every labeling: full-graph minimax reference, labeled-MST prototype family, and state identity with SupervisedOPF when n_u = 0."),
 })
 
+CHECKS.update({
+ "C06": _e("bounded-exhaustive evaluation of every metric on all ordered vector pairs of the domain grids against an independent closed-form transcription; registry/option/accepted-set probes",
+           "All ordered pairs over the R/N/P/S grids (lengths 1..3, thorough 4) for all 47 identifiers via the registry, plus resolution through OPF and the four model constructors and the accepted-identifier set; exhaustive over the grids."),
+ "C07": _e("explicit-state search over call histories (pool bits x hidden-state digest x model digest) with prefix replay; all metric call histories of length <= 3",
+           "Every history of <=3 metric calls over every ordered (also aliased) pair of a zero-containing pool for all 47 metrics, BFS to fixpoint (depth<=4) over model operations for the four kinds, and fresh-twice differential; each transition is a real call checked for caller-array bit-identity and history-independent value.", engine="explorer-B"),
+ "C08": _e("bounded-exhaustive evaluation of the axiom table on all ordered pairs and all ordered triples of the domain grids (pair matrix filled by real calls)",
+           "Finite/symmetric/non-negative/zero-self on all ordered pairs and triangle on all ordered triples of the class grids for the rows of the fixed axiom table; exhaustive over the grids."),
+})
+
 NOT_APPLICABLE = {p: "check not built yet (build in progress; see DESIGN.md section 7)" for p in
                   ["C%02d" % i for i in range(1, 21)]}
